@@ -69,14 +69,20 @@ def oracle_cases(tier, rng):
                 yield dict(biort=b, qshift=q, J=J, H=hw[0], W=hw[1], seed=int(rng.integers(1 << 30)))
 
 
+    # many channels / batch items: a code path chosen by the channel or batch count must compute the same transform
+    for (b, q) in (dtfam.PAIRS[0], dtfam.PAIRS[7]):
+        for (nb, C) in ((1, 70), (1, 130), (9, 2)):
+            yield dict(biort=b, qshift=q, J=2, H=8, W=12, nb=nb, C=C, seed=int(rng.integers(1 << 30)))
+
+
 def strat_key(cfg):
-    return '%s/%s/J%d/%d%d' % (cfg['biort'], cfg['qshift'], cfg['J'], cfg['H'] % 4, cfg['W'] % 4)
+    return '%s/%s/J%d/%d%d%s' % (cfg['biort'], cfg['qshift'], cfg['J'], cfg['H'] % 4, cfg['W'] % 4, '/C%d' % cfg['C'] if cfg.get('C') else '')
 
 
 def oracle_run(cfg):
     from pytorch_wavelets import DTCWTForward
     r = np.random.default_rng(cfg['seed'])
-    X = r.standard_normal((1, 2, cfg['H'], cfg['W']))
+    X = r.standard_normal((cfg.get('nb', 1), cfg.get('C', 2), cfg['H'], cfg['W']))
     try:
         yl, yh = DTCWTForward(biort=cfg['biort'], qshift=cfg['qshift'], J=cfg['J'])(torch.tensor(X))
     except Exception as e:
